@@ -2,23 +2,22 @@
 # Must-fail corpus: every patch under selftest/mustfail breaks a property while still compiling;
 # the named check must report a violation (exit 1) on the patched scratch copy.  Patches under
 # selftest/mustpass are harmless edits that must keep the check green.
-# usage: run.sh [name-substring]
+# usage: run.sh [name-substring]     (PAR=n runs n patches at a time, default 3)
 cd "$(dirname "$0")/.."
 export GOFLAGS=-mod=mod GOPROXY=off GOSUMDB=off GOTOOLCHAIN=local
 filter=${1:-}
-fail=0
 run_one() {
   kind=$1; d=$2
   name=$(basename $d .diff)
-  [ -n "$filter" ] && [[ "$name" != *$filter* ]] && return
-  . <(sed 's/ /\n/g' selftest/$kind/$name.meta)
+  prop=$(sed -n 's/.*prop=\([^ ]*\).*/\1/p' selftest/$kind/$name.meta)
+  expect=$(sed -n 's/.*expect=\(.*\)$/\1/p' selftest/$kind/$name.meta)
   T=$(mktemp -d /tmp/selftest.XXXXXX)
   rsync -a --exclude .git /repo/ $T/repo/
   if ! (cd $T/repo && patch -s -p1 < /verif/$d); then echo "PATCH-FAILED $name"; rm -rf $T; return 1; fi
   out=$(bin/govc check -prop $prop -tier quick -repo $T/repo -work $T/work -no-evidence 2>&1); rc=$?
   rm -rf $T
   if [ $kind = mustfail ]; then
-    if [ $rc -eq 1 ] && echo "$out" | grep -q "VIOLATION property=$prop" && { [ -z "$expect" ] || echo "$out" | grep -q "FAILED obligation=.*$expect"; }; then
+    if [ $rc -eq 1 ] && echo "$out" | grep -q "VIOLATION property=$prop" && { [ -z "$expect" ] || echo "$out" | grep -qF "$expect"; }; then
       echo "ok   mustfail $name ($prop) -> $(echo "$out" | grep -c VIOLATION) violation(s)"
     else
       echo "MISS mustfail $name ($prop) rc=$rc"; echo "$out" | tail -5; return 1
@@ -27,6 +26,13 @@ run_one() {
     if [ $rc -eq 0 ]; then echo "ok   mustpass $name ($prop)"; else echo "FALSE-ALARM mustpass $name ($prop)"; echo "$out" | grep -E "VIOLATION|UNDECIDED" | head; return 1; fi
   fi
 }
-for d in selftest/mustfail/*.diff; do [ -e "$d" ] && { run_one mustfail $d || fail=1; }; done
-for d in selftest/mustpass/*.diff; do [ -e "$d" ] && { run_one mustpass $d || fail=1; }; done
-exit $fail
+export -f run_one
+list=""
+for d in selftest/mustfail/*.diff; do [ -e "$d" ] && { [ -z "$filter" ] || [[ "$d" == *$filter* ]]; } && list="$list mustfail:$d"; done
+for d in selftest/mustpass/*.diff; do [ -e "$d" ] && { [ -z "$filter" ] || [[ "$d" == *$filter* ]]; } && list="$list mustpass:$d"; done
+out=$(mktemp /tmp/selftest.out.XXXXXX)
+echo $list | tr ' ' '\n' | grep . | xargs -P ${PAR:-3} -I{} bash -c 'x={}; run_one ${x%%:*} ${x#*:}' | tee $out
+rc=0
+if grep -qE "^(MISS|FALSE-ALARM|PATCH-FAILED)" $out; then rc=1; fi
+rm -f $out
+exit $rc
